@@ -187,7 +187,7 @@ def run_case(ctx, case):
     root = ctx.casedir(case["id"])
     k = case["k"]
     edges = {tuple(e): "base" for e in case["edges"]}
-    libs = modgen.write_module(root, k, edges, cross_params=True)
+    libs = modgen.write_module(root, k, edges, cross_params=True, chains=True)
     ins = []
     for L in libs:
         incs = ["-I" + x["dir"] for x in libs if x is not L] + ["-S" + os.path.join(root, "sys")]
